@@ -19,12 +19,12 @@ def reroll_violation(case, obs):
     """Re-rolled vectors (the chain after each transient failure) must lie in the box."""
     specs = specs_of(case, obs)
     for k, sp in enumerate(specs):
-        for v in sp["vecs"][1:]:
+        for v in sp["vecs"][1:sp["real"]]:
             if len(v) != len(case["bounds"]) or any(not (b[0] - 1e-9 <= x <= b[1] + 1e-9) for x, b in zip(v, case["bounds"])):
                 return ("reroll-bounds", "design %d was replaced by %r after a failure, outside the bounds %r" % (k, v, case["bounds"]))
     # a re-rolled design is a fresh sample, not the vector that just failed
     for k, sp in enumerate(specs):
-        for a, b in zip(sp["vecs"], sp["vecs"][1:]):
+        for a, b in zip(sp["vecs"], sp["vecs"][1:sp["real"]]):
             if a == b and any(bb[0] != bb[1] for bb in case["bounds"]):
                 return ("reroll-fresh", "design %d kept its failed vector %r instead of a freshly sampled one" % (k, a))
     return None
